@@ -328,8 +328,11 @@ Definition outcome_eqb (a b : outcome float) : bool :=
   | _, _ => false
   end.
 
-(* the hypotheses of the order / known-point / per-leaf theorems (order_ok on the carrier, pairwise
-   different abscissae), decided on the finite carrier of one run: its abscissae and the query value *)
+(* the hypotheses of the binary64 order / known-point / per-leaf theorems (Props.C20_*_f64): no NaN among the
+   abscissae and the query value, pairwise different abscissae -- decided on every in-quantifier run.
+   (The order laws themselves are THEOREMS for non-NaN floats: Common/Float64Order.v, Proofs5.F_order_ok;
+   order_ok_b, the executable form of the laws on a finite carrier, is kept for the Z examples of Witness.v
+   and evaluated on every run as a redundant cross-check of the theorem.) *)
 Definition order_ok_b {V} (leb eqb : V -> V -> bool) (l : list V) : bool :=
   forallb (fun a => eqb a a) l &&
   forallb (fun a => forallb (fun b =>
@@ -340,10 +343,18 @@ Fixpoint distinct_b {V} (eqb : V -> V -> bool) (l : list V) : bool :=
   | [] => true
   | a :: r => forallb (fun b => negb (eqb a b) && negb (eqb b a)) r && distinct_b eqb r
   end.
+Definition nonan_b (l : list float) : bool := forallb (fun x => negb (PrimFloat.is_nan x)) l.
 Definition hyps_F (insts : list (tree float)) (q : list string) (qv : tree float) : bool :=
   match all_some (map (abscissa Z2F q) insts), num_of Z2F qv with
-  | Some ks, Some v => order_ok_b PrimFloat.leb PrimFloat.eqb (v :: ks) && distinct_b PrimFloat.eqb ks
+  | Some ks, Some v => nonan_b (v :: ks) && distinct_b PrimFloat.eqb ks
   | _, _ => false
+  end.
+(* Float64Order says: no NaN => the laws hold.  Computed on every run (in or out of the quantifier): a false
+   here would contradict the theorem, i.e. the kernel's float primitives and FloatAxioms would disagree *)
+Definition laws_F (insts : list (tree float)) (q : list string) (qv : tree float) : bool :=
+  match all_some (map (abscissa Z2F q) insts), num_of Z2F qv with
+  | Some ks, Some v => implb (nonan_b (v :: ks)) (order_ok_b PrimFloat.leb PrimFloat.eqb (v :: ks))
+  | _, _ => true
   end.
 
 Record query := Query {
@@ -352,7 +363,8 @@ Record query := Query {
   q_path : list string;         (* interpolator.<a>.<b> ... *)
   q_value : tree float;         (* == value (TF or TI) *)
   q_expect : nat;               (* index (in the series' table of outcomes) of what the implementation returned *)
-  q_inq : bool                  (* the harness counts this query as inside the property's quantifier *)
+  q_inq : bool;                 (* the harness counts this query as inside the property's quantifier *)
+  q_hyp : bool                  (* the harness's own evaluation (Python ==, isnan) of the _f64 theorems' hypotheses *)
 }.
 
 Definition permute {A} (l : list A) (perm : list nat) : option (list A) :=
@@ -363,7 +375,8 @@ Definition check_query (insts : list (tree float)) (lt : lin_table) (st : spl_ta
   match permute insts (q_perm qu), nth_error outs (q_expect qu) with
   | Some l, Some e =>
       outcome_eqb (interp_at_F assigns_final (q_method qu) lt st l (q_path qu) (q_value qu)) e
-      && implb (q_inq qu) (hyps_F l (q_path qu) (q_value qu))
+      && implb (q_inq qu) (q_hyp qu) && Bool.eqb (hyps_F l (q_path qu) (q_value qu)) (q_hyp qu)
+      && laws_F l (q_path qu) (q_value qu)
   | _, _ => false
   end.
 
